@@ -20,7 +20,8 @@ from .common import symbolic_run, Vals, _raised_in_repo
 PROPERTY = "C02"
 
 SRC_LEN = [3, 2]                 # x, z
-ACCESS = ["w", "b", "t", "i"]    # whole, basic slice [1:], tuple of slices [(0::2,)], integer array [n-1, 0]
+# whole, basic slice [1:], tuple of slices [(0::2,)], integer array [n-1, 0], tuple holding a list ([n-1, 0],) (a copy)
+ACCESS = ["w", "b", "t", "i", "l"]
 
 BOUNDS = {
     "quick": dict(max_modules=3, sources="x (3-vector), z (2-vector)",
@@ -28,7 +29,7 @@ BOUNDS = {
                              "from any earlier signal (also the same signal twice); the two inputs of a 2-input slot are "
                              "unordered (isomorphic duplicates removed); module order = execution order is kept",
                   variants="per topology: v0 = Poly modules, whole-signal access, flat network; v1 = slice access on the edges "
-                           "(basic / tuple of slices / integer array, rotated deterministically), library modules "
+                           "(basic / tuple of slices / integer array / tuple holding an index list, rotated deterministically), library modules "
                            "(EinSum i->, i,i->, i,i->i; ConcatSignal; Scaling minval/maxval; MathGeneral) substituted where "
                            "shapes allow (rotated deterministically), one nested Network over a contiguous module range "
                            "(rotated deterministically)",
@@ -86,7 +87,7 @@ def _acc_len(n, acc):
         return n - 1
     if acc == "t":
         return (n + 1) // 2
-    if acc == "i":
+    if acc in ("i", "l"):
         return 2
     raise ValueError(acc)
 
@@ -135,7 +136,7 @@ def make_graph(topo, tidx, variant, nsrc):
         for a in inps:
             acc = "w"
             if variant > 0 and lens[a] >= 2:
-                acc = ACCESS[(e + variant + tidx) % 4]
+                acc = ACCESS[(e + variant + tidx) % len(ACCESS)]
                 if variant >= 2 and (e + tidx) % 3 == 0:
                     acc = "w"
             e += 1
@@ -251,7 +252,7 @@ def _access_idx(n, acc):
         return list(range(1, n))
     if acc == "t":
         return list(range(0, n, 2))
-    if acc == "i":
+    if acc in ("i", "l"):
         return [n - 1, 0]
     raise ValueError(acc)
 
@@ -264,6 +265,8 @@ def _access_obj(n, acc):
         return (slice(0, None, 2),)
     if acc == "i":
         return np.array([n - 1, 0])
+    if acc == "l":
+        return ([n - 1, 0],)
     raise ValueError(acc)
 
 
